@@ -12,7 +12,7 @@ CHAIN_VARIANTS = ["genuine", "device-link", "attestation-link", "ui-link", "sign
 
 
 class LedgerGen:
-    def __init__(self, rng):
+    def __init__(self, rng, profile="seeded"):
         self.issuer = k1.Key.from_rng(rng)
         self.other_root = k1.Key.from_rng(rng)
         self.device = k1.Key.from_rng(rng)
@@ -33,6 +33,13 @@ class LedgerGen:
         self.last_tx = rng.nz_bytes(8)
         self.timestamp = int.from_bytes(rng.nz_bytes(8), "big")
         self.filler = rng.nz_bytes(64)
+        sh = lambda x: L.shape(x, profile)       # noqa: E731
+        self.ud_ui, self.ud_signer = sh(self.ud_ui), sh(self.ud_signer)
+        self.signer_hash_authorized = sh(self.signer_hash_authorized)
+        self.iteration = sh((self.iteration, 2))
+        self.ui_hash, self.signer_hash_installed = sh(self.ui_hash), sh(self.signer_hash_installed)
+        self.best_block, self.last_tx = sh(self.best_block), sh(self.last_tx)
+        self.timestamp = sh((self.timestamp, 8))
         self.keys_hash = L.pubkeys_hash({p: k.pub65 for p, k in zip(L.PATHS, self.wallet)})
         self._sigs = {}
 
